@@ -150,4 +150,22 @@ def Cache.closest (c : Cache) (k : Bytes) : Option Entry := (c.forEach k).head?
 def Cache.forEachCloser (c : Cache) (x : Bytes) : List Entry :=
   (c.forEach x).takeWhile (fun e => distanceLt x e.key c.locus)
 
+/-- `HasPrefix` for `nbits ≤ 8 * prefix.length` (beyond that it panics): `x` is long enough and its first `nbits`
+    bits are those of `prefix`. The XOR buffer is as long as `x` and zero past the end of `prefix`. -/
+def hasPrefix (x pfx : Bytes) (nbits : Nat) : Bool :=
+  decide (nbits ≤ x.length * 8) &&
+  decide (nbits ≤ leadingZeros (distance x pfx ++ List.replicate (x.length - pfx.length) 0))
+
+/-- the number of bytes of the prefix `ForEachMatching` orders by: the bytes that hold the first `nbits` bits -/
+def matchLen (nbits : Nat) : Nat := let l := nbits / 8; if nbits % 8 > 0 then l + 1 else l
+
+/-- `Cache.ForEachMatching` run to completion; `none` = the call panics (the slice `prefix[:l]` is out of range, or
+    `HasPrefix` is asked for more bits than the prefix has while there is an entry to test) -/
+def Cache.forEachMatching (c : Cache) (pfx : Bytes) (nbits : Nat) : Option (List Entry) :=
+  if matchLen nbits > pfx.length then none
+  else
+    let es := c.forEach (pfx.take (matchLen nbits))
+    if !es.isEmpty && decide (nbits > pfx.length * 8) then none
+    else some (es.filter (fun e => hasPrefix e.key pfx nbits))
+
 end P2PVerif.Kad
